@@ -66,7 +66,7 @@ fn scan_wire(w: &World, wire: &mut Wire) {
 
 pub fn run_case(dir: &PathBuf, c: &Case, verbose: bool) -> (String, u64, Option<(&'static str, String)>) {
     let t = torrent();
-    let cfg = WorldCfg { torrent: t.clone(), have: vec![0, 2], peers: vec![peer_cfg(0, !c.incoming)], gated: false };
+    let cfg = WorldCfg { torrent: t.clone(), have: vec![0, 2], peers: vec![peer_cfg(0, !c.incoming)], gated: false, stale: vec![] };
     let mut w = World::new(&cfg, dir);
     let id = w.peers[0].cfg.id;
     let mut steps = 0u64;
@@ -232,7 +232,7 @@ impl Scenario for Upload {
         format!("upload-{}", if self.incoming { "incoming" } else { "outgoing" })
     }
     fn cfg(&self) -> WorldCfg {
-        WorldCfg { torrent: torrent(), have: vec![0, 2], peers: vec![peer_cfg(0, !self.incoming)], gated: false }
+        WorldCfg { torrent: torrent(), have: vec![0, 2], peers: vec![peer_cfg(0, !self.incoming)], gated: false, stale: vec![] }
     }
     fn explore_choices(&self) -> bool {
         true
